@@ -81,7 +81,7 @@ impl ScalarClaim {
 
     pub fn decode_to_bytes(&self) -> CredxResult<Vec<u8>> {
         let data = self.value.to_be_bytes();
-        let len = data[1] as usize;
+        let len = data[0] as usize;
         Ok(data[32 - len..].to_vec())
     }
 }
